@@ -184,9 +184,10 @@ def classify(family: str, out: bytes):
             return "notfound", ct, body
         if status != 200:
             return "invalid", ct, body
-        if ct == "text/html" and b"<TABLE WIDTH=" in body and b"Generated by <A HREF" in body:
+        # a generated listing: a table plus the generator's footer link / the index card (layout, not styling)
+        if ct == "text/html" and re.search(rb"(?i)<table\b", body) and re.search(rb'(?i)generated by\s*<a\s+href="https://www\.github\.com/michael-lazar/pygopherd"', body):
             return "menu", ct, body
-        if ct == "text/vnd.wap.wml" and b'<card id="index" title=' in body and b'title="Text File"' not in body:
+        if ct == "text/vnd.wap.wml" and re.search(rb'(?i)<card\b[^>]*\bid="index"', body) and b'title="Text File"' not in body:
             return "menu", ct, body
         return "doc", ct, body
     if family in ("gemini", "spartan"):
